@@ -84,6 +84,7 @@ func ruleOwnerFields(r *Report) {
 				continue
 			}
 			closed := false
+			var closeSites []Site
 			for _, g := range scope {
 				eachInstr(g, func(s Site) {
 					c, ok := s.Instr.(ssa.CallInstruction)
@@ -103,6 +104,7 @@ func ruleOwnerFields(r *Report) {
 					}
 					if _, fld, _, ok := loadOfField(recv); ok && fld == f.Name() {
 						closed = true
+						closeSites = append(closeSites, s)
 					}
 					if isSlice {
 						// element of the field slice (range loop)
@@ -116,7 +118,9 @@ func ruleOwnerFields(r *Report) {
 					}
 				})
 			}
-			if closed {
+			if closed && !isSlice && !closedOnAllPaths(fn, closeSites) {
+				r.Bad(rule, key, fn.Pos(), fmt.Sprintf("%s.Close can return without closing its field %s on some path (an early return that is not a nil test of one of the owner's own handles)", owner, f.Name()))
+			} else if closed {
 				r.OK(rule, key, fn.Pos(), "closed by the owner's Close")
 			} else {
 				r.Bad(rule, key, fn.Pos(), fmt.Sprintf("%s.Close never closes its field %s (%s): the handle it owns stays open", owner, f.Name(), f.Type()))
@@ -635,4 +639,74 @@ func ruleJoin(r *Report) {
 	} else {
 		r.OK(rule, key, tableCloses[0].Pos(), "WAL and table readers are closed after both joins")
 	}
+}
+
+// closedOnAllPaths: every return of the owner's Close is reached through a close of the field (direct, or the
+// registration of a deferred closure / call that closes it), except along nil-test edges of the owner's own fields
+// ("nothing to close") and error exits of an earlier fallible step.
+func closedOnAllPaths(fn *ssa.Function, sites []Site) bool {
+	if len(sites) == 0 {
+		return false
+	}
+	removed := map[Edge]bool{}
+	inClose := map[*ssa.BasicBlock]bool{}
+	for _, s := range sites {
+		cur := s
+		// lift sites inside (deferred) closures to the instruction in fn that registers / calls the closure
+		for cur.Fn != fn {
+			par := cur.Fn.Parent()
+			if par == nil {
+				return true // cannot lift: do not guess
+			}
+			var reg *Site
+			eachInstr(par, func(x Site) {
+				switch y := x.Instr.(type) {
+				case *ssa.Defer:
+					if mc, ok := y.Call.Value.(*ssa.MakeClosure); ok && mc.Fn == cur.Fn {
+						xx := x
+						reg = &xx
+					} else if y.Call.Value == ssa.Value(cur.Fn) {
+						xx := x
+						reg = &xx
+					}
+				case *ssa.Call:
+					if mc, ok := y.Call.Value.(*ssa.MakeClosure); ok && mc.Fn == cur.Fn {
+						xx := x
+						reg = &xx
+					}
+				}
+			})
+			if reg == nil {
+				return true
+			}
+			cur = *reg
+		}
+		inClose[cur.Block] = true
+		for _, su := range cur.Block.Succs {
+			removed[Edge{cur.Block, su}] = true
+		}
+	}
+	// allowed bypasses: nil edges of tests of receiver fields holding handles (pointer / interface typed)
+	for _, b := range liveBlocks(fn) {
+		if v, nilS, _, ok := nilTest(b); ok {
+			if _, _, base, isF := loadOfField(v); isF && len(fn.Params) > 0 && base == ssa.Value(fn.Params[0]) {
+				if _, isSl := v.Type().Underlying().(*types.Slice); !isSl {
+					removed[Edge{b, nilS}] = true
+				}
+			}
+		}
+	}
+	reach := reachFrom(fn.Blocks[0], removed)
+	idx := errorResultIndex(fn)
+	for _, rs := range returnsOf(fn) {
+		if !reach[rs.Block] || inClose[rs.Block] {
+			continue
+		}
+		// error exits of earlier fallible steps are not "successful closes"
+		if k, _ := returnErrOperand(rs.Instr.(*ssa.Return), idx); k != "nil" {
+			continue
+		}
+		return false
+	}
+	return true
 }
